@@ -7,7 +7,7 @@
 From Coq Require Import NArith ZArith List Bool Lia.
 Import ListNotations.
 Require Import UV.Gen.Consts UV.Gen.C17Consts UV.Mcount.Model UV.Mcount.Forest UV.Mcount.PlainStep
-  UV.C17.Model UV.C17.Erase UV.C17.Read UV.C17.Drop.
+  UV.C17.Model UV.C17.Erase UV.C17.Read UV.C17.Drop UV.C17.Watch.
 Local Open Scope N_scope.
 
 (* argument bytes [0, abytes) and event bytes [ARGBUF_SIZE - used, ARGBUF_SIZE) of one frame are disjoint *)
@@ -283,3 +283,15 @@ Proof.
   - constructor.
   - rewrite app_nil_r in E. exists D. auto.
 Qed.
+
+(* ---------------------------------------------------------------- -W var and several threads
+   "that thread's previous observation" does not hold across threads: the global watch item makes a value
+   reported once per process.  Threads 0 and 1 both observe 3 at their entry hooks and 4 at their exit hooks:
+   thread 0 reports the change, thread 1 - whose own previous observation was 3 - stays silent. *)
+Definition mt_run : list (nat * xev) :=
+  [(0%nat, XEnter 0 100 (ov 3)); (1%nat, XEnter 0 105 (ov 3));
+   (0%nat, XLeave 200 (ov 4)); (1%nat, XLeave 205 (ov 4))].
+Lemma watch_var_threads_refuted :
+  map (fun D => ids (xout (snd D))) (fst (xexec_mt var_cfg mt_run [] false 0)) =
+  [[(0, 100); (C17_EVENT_ID_WATCH_VAR, 199); (0, 200)]; [(0, 105); (0, 205)]].
+Proof. vm_compute. reflexivity. Qed.
